@@ -125,6 +125,7 @@ def run(ctx, chk):
     # (a) pipeline order and restriction argument
     C02.r1_pipeline(ctx, chk, "C05.pre:C02.1")
     C02.r4_restriction_argument(ctx, chk, "C05.pre:C02.4")
+    C03.r1(ctx, chk, "C05.pre:C03.1")      # the restriction must not skip elements of the list it rewrites
     r1_inclusion(ctx, chk)
     # (c) nothing adds to next_states afterwards
     C03.r6_monotone(ctx, chk, "C05.1c:C03.6")
